@@ -182,7 +182,7 @@ class X2D(Function):
     return np.array([self.functions[k](v) for k, v in enumerate(np.array(x).reshape(len(self)))]).sum()
 
   def deriv(self, x):
-    return np.array([self.functions[k].deriv(v) for k, v in enumerate(np.array(x).reshape(len(self)))]).reshape(-1)
+    return np.hstack([np.atleast_1d(self.functions[k].deriv(v)) for k, v in enumerate(np.array(x).reshape(len(self)))])
 
   def hess(self, x):
     ''' Each hess value should be an 1x1 matrix '''
